@@ -140,12 +140,40 @@ func TestVerif_C09(t *testing.T) {
 			}
 			time.Sleep(100 * time.Microsecond)
 		}
-		w.mu.Lock()
-		answered := len(w.oks) == totalEv*nch && len(w.counts) == totalCnt*nch
-		w.mu.Unlock()
+		// the barrier COUNT is taken by the merged handler only after every earlier client
+		// message was handed to every child (unbuffered channels, one sequential loop), so
+		// from here on each child must have read all of them
+		if !cl.s.Put(&mocrelay.ClientCountMsg{SubscriptionID: "zz-barrier", ReqFilters: []*mocrelay.ReqFilter{{}}}) {
+			rep.Violation("session/stalled", "the merged handler stopped taking client messages", map[string]any{"children": nch, "sent": log, "received": describeRecv(cl.snapshot())})
+			return
+		}
+		deadline = time.Now().Add(vk.WaitBound)
+		answered, handed := false, false
+		for !(answered && handed) && time.Now().Before(deadline) {
+			handed = true
+			for c := 0; c < nch; c++ {
+				if int(w.gotEvents[c].Load()) != totalEv || int(w.gotCounts[c].Load()) != totalCnt+1 {
+					handed = false
+				}
+			}
+			w.mu.Lock()
+			answered = len(w.oks) == totalEv*nch && len(w.counts) == (totalCnt+1)*nch
+			w.mu.Unlock()
+			if !(answered && handed) {
+				time.Sleep(200 * time.Microsecond)
+			}
+		}
+		if !handed {
+			for c := 0; c < nch; c++ {
+				if int(w.gotEvents[c].Load()) != totalEv || int(w.gotCounts[c].Load()) != totalCnt+1 {
+					rep.Violation("session/request-not-broadcast", fmt.Sprintf("the merged handler took all %d EVENTs and %d COUNTs from the client, but child %d was handed only %d and %d of them", totalEv, totalCnt+1, c, w.gotEvents[c].Load(), w.gotCounts[c].Load()), map[string]any{"children": nch, "sent": log})
+					return
+				}
+			}
+		}
 		if !answered {
 			// the precondition of the property (every child answers every request) is not
-			// met: nothing can be concluded about the merged replies of this session
+			// met: a violation only if a child is blocked handing its reply over
 			var stuck []string
 			for _, g := range vk.Goroutines() {
 				if strings.Contains(g.Stack, "mChild") {
@@ -159,11 +187,18 @@ func TestVerif_C09(t *testing.T) {
 				}
 			}
 			w.mu.Lock()
-			rep.Inconclusive(fmt.Sprintf("C09: the scripted children emitted %d of %d OKs and %d of %d COUNTs within the bound (session %d); child goroutines: %s", len(w.oks), totalEv*nch, len(w.counts), totalCnt*nch, i, strings.Join(stuck, " || ")))
+			rep.Inconclusive(fmt.Sprintf("C09: the scripted children emitted %d of %d OKs and %d of %d COUNTs within the bound (session %d); child goroutines: %s", len(w.oks), totalEv*nch, len(w.counts), (totalCnt+1)*nch, i, strings.Join(stuck, " || ")))
 			w.mu.Unlock()
 			return
 		}
-		if !cl.barrier("zz-barrier") {
+		if !cl.waitFor(func(rs []rRecv) bool {
+			for _, r := range rs {
+				if m, is := r.msg.(*mocrelay.ServerCountMsg); is && m.SubscriptionID == "zz-barrier" {
+					return true
+				}
+			}
+			return false
+		}) {
 			rep.Violation("session/stalled", "the final barrier COUNT was not answered: the merged handler lost a reply or stopped", map[string]any{"children": nch, "sent": log, "received": describeRecv(cl.snapshot())})
 			return
 		}
